@@ -1,16 +1,13 @@
 SPECIFICATION GSpec
 CONSTANTS
-  Sess = {"s1","s2"}
-  Reqs = {"r1"}
-  Gets = {}
-  Prime <- PrimeAll
-  Store = FALSE
-  Json = FALSE
-  Stateless = TRUE
-  MaxEmit = 1
-  MaxSreq = 1
-  MaxSa = 0
-  Gates = FALSE
+  Sess = {"s1"}
+  Reqs = {}
+  Gets = {"g1","g2"}
+  Cfgs <- CfgStoreNoPrime
+  MaxEmit = 0
+  MaxSreq = 0
+  MaxSa = 2
+  Gates = TRUE
 VIEW MCView
 INVARIANTS ResumeExact IdsDense IdStable StoreBeforeDeliver CompleteAtEnd CompleteAtRest FinalObtainable RefusedOnlyOnConflict ResponseOnOwnExchange NestedRouting NoCrossSession RoutingEntryLifecycle LockDiscipline
 CHECK_DEADLOCK FALSE
